@@ -21,6 +21,7 @@ pub mod c16;
 pub mod c17;
 pub mod c18;
 pub mod c19;
+pub mod fuzzsub;
 
 pub struct PropDef {
     pub id: &'static str,
